@@ -188,7 +188,7 @@ auto a_merge(Case const& c) -> std::string
     std::string e;
     {
         Scope sc;
-        auto re = c.cmp == 0 ? etl::merge(at<K>(A, 0), at<K>(A, len(c)), at<K>(B, 0), at<K>(B, lenb(c)), oat<K>(D, 0)) : etl::merge(at<K>(A, 0), at<K>(A, len(c)), at<K>(B, 0), at<K>(B, lenb(c)), oat<K>(D, 0), Cmp{c.cmp});
+        auto re = c.cmp == 0 ? etl::merge(at<K>(A, 0), at<K>(A, len(c)), at2<K>(B, 0), at2<K>(B, lenb(c)), oat<K>(D, 0)) : etl::merge(at<K>(A, 0), at<K>(A, len(c)), at2<K>(B, 0), at2<K>(B, lenb(c)), oat<K>(D, 0), Cmp{c.cmp});
         e       = "ret=" + num(off(D, re)) + " a" + ren(A) + " b" + ren(B) + " dst" + ren(D);
     }
     return verdict(e, s);
@@ -239,8 +239,8 @@ auto a_setop(Case const& c) -> std::string
         Scope sc;
         auto f1 = at<K>(A, 0);
         auto l1 = at<K>(A, len(c));
-        auto f2 = at<K>(B, 0);
-        auto l2 = at<K>(B, lenb(c));
+        auto f2 = at2<K>(B, 0);
+        auto l2 = at2<K>(B, lenb(c));
         auto o  = oat<K>(D, 0);
         auto er = [&] {
             if constexpr (O == SetOp::difference) {
@@ -270,42 +270,67 @@ auto a_set_union(Case const& c) -> std::string { return a_setop<SetOp::set_union
 
 auto table() -> std::vector<Entry> const&
 {
-    constexpr unsigned SETS = D_CMP | D_ASORT | D_BSORT | D_B;
+    constexpr unsigned SETS = D_CMP | D_ASORT | D_BSORT | D_B | D_LONG;
     static std::vector<Entry> const t = {
-        C06_REG(a_partition, "partition", D_PRED, KP),
-        C06_REG(a_partition, "partition", D_PRED, KF),
-        C06_REG(a_stable_partition, "stable_partition", D_PRED, KP),
-        C06_REG(a_stable_partition, "stable_partition", D_PRED, KR),
-        C06_REG(a_sort, "sort", D_CMP, KP),
-        C06_REG(a_sort, "sort", D_CMP, KR),
-        C06_REG(a_stable_sort, "stable_sort", D_CMP, KP),
-        C06_REG(a_stable_sort, "stable_sort", D_CMP, KR),
-        C06_REG(a_partial_sort, "partial_sort", D_CMP | D_MID, KP),
-        C06_REG(a_partial_sort, "partial_sort", D_CMP | D_MID, KR),
-        C06_REG(a_nth_element, "nth_element", D_CMP | D_MID, KP),
-        C06_REG(a_nth_element, "nth_element", D_CMP | D_MID, KR),
-        C06_REG(a_bubble, "bubble_sort", D_CMP, KP),
-        C06_REG(a_bubble, "bubble_sort", D_CMP, KR),
-        C06_REG(a_exchange, "exchange_sort", D_CMP, KP),
-        C06_REG(a_exchange, "exchange_sort", D_CMP, KR),
-        C06_REG(a_gnome, "gnome_sort", D_CMP, KP),
-        C06_REG(a_gnome, "gnome_sort", D_CMP, KB),
-        C06_REG(a_insertion, "insertion_sort", D_CMP, KP),
-        C06_REG(a_insertion, "insertion_sort", D_CMP, KR),
-        C06_REG(a_merge_sort, "merge_sort", D_CMP, KP),
-        C06_REG(a_merge_sort, "merge_sort", D_CMP, KR),
+        C06_REG(a_partition, "partition", D_PRED | D_LONG, KP),
+        C06_REG(a_partition, "partition", D_PRED | D_LONG, KF),
+        C06_REG(a_stable_partition, "stable_partition", D_PRED | D_LONG, KP),
+        C06_REG(a_stable_partition, "stable_partition", D_PRED | D_LONG, KR),
+        C06_REG(a_sort, "sort", D_CMP | D_LONG, KP),
+        C06_REG(a_sort, "sort", D_CMP | D_LONG, KR),
+        C06_REG(a_stable_sort, "stable_sort", D_CMP | D_LONG, KP),
+        C06_REG(a_stable_sort, "stable_sort", D_CMP | D_LONG, KR),
+        C06_REG(a_partial_sort, "partial_sort", D_CMP | D_MID | D_LONG, KP),
+        C06_REG(a_partial_sort, "partial_sort", D_CMP | D_MID | D_LONG, KR),
+        C06_REG(a_nth_element, "nth_element", D_CMP | D_MID | D_LONG, KP),
+        C06_REG(a_nth_element, "nth_element", D_CMP | D_MID | D_LONG, KR),
+        C06_REG(a_bubble, "bubble_sort", D_CMP | D_LONG, KP),
+        C06_REG(a_bubble, "bubble_sort", D_CMP | D_LONG, KR),
+        C06_REG(a_exchange, "exchange_sort", D_CMP | D_LONG, KP),
+        C06_REG(a_exchange, "exchange_sort", D_CMP | D_LONG, KR),
+        C06_REG(a_gnome, "gnome_sort", D_CMP | D_LONG, KP),
+        C06_REG(a_gnome, "gnome_sort", D_CMP | D_LONG, KB),
+        C06_REG(a_insertion, "insertion_sort", D_CMP | D_LONG, KP),
+        C06_REG(a_insertion, "insertion_sort", D_CMP | D_LONG, KR),
+        C06_REG(a_merge_sort, "merge_sort", D_CMP | D_LONG, KP),
+        C06_REG(a_merge_sort, "merge_sort", D_CMP | D_LONG, KR),
         C06_REG(a_merge, "merge", SETS, KP),
         C06_REG(a_merge, "merge", SETS, KI),
-        C06_REG(a_inplace_merge, "inplace_merge", D_CMP | D_MID | D_HALVES, KP),
-        C06_REG(a_inplace_merge, "inplace_merge", D_CMP | D_MID | D_HALVES, KR),
+        C06_REG(a_merge, "merge", SETS, Kpi),
+        C06_REG(a_merge, "merge", SETS, Kip),
+        C06_REG(a_merge, "merge", SETS, Kfi),
+        C06_REG(a_merge, "merge", SETS, Kpf),
+        C06_REG(a_merge, "merge", SETS, Kbp),
+        C06_REG(a_inplace_merge, "inplace_merge", D_CMP | D_MID | D_HALVES | D_LONG, KP),
+        C06_REG(a_inplace_merge, "inplace_merge", D_CMP | D_MID | D_HALVES | D_LONG, KR),
         C06_REG(a_set_difference, "set_difference", SETS, KP),
         C06_REG(a_set_difference, "set_difference", SETS, KI),
+        C06_REG(a_set_difference, "set_difference", SETS, Kpi),
+        C06_REG(a_set_difference, "set_difference", SETS, Kip),
+        C06_REG(a_set_difference, "set_difference", SETS, Kfi),
+        C06_REG(a_set_difference, "set_difference", SETS, Kpf),
+        C06_REG(a_set_difference, "set_difference", SETS, Kbp),
         C06_REG(a_set_intersection, "set_intersection", SETS, KP),
         C06_REG(a_set_intersection, "set_intersection", SETS, KI),
+        C06_REG(a_set_intersection, "set_intersection", SETS, Kpi),
+        C06_REG(a_set_intersection, "set_intersection", SETS, Kip),
+        C06_REG(a_set_intersection, "set_intersection", SETS, Kfi),
+        C06_REG(a_set_intersection, "set_intersection", SETS, Kpf),
+        C06_REG(a_set_intersection, "set_intersection", SETS, Kbp),
         C06_REG(a_set_symmetric_difference, "set_symmetric_difference", SETS, KP),
         C06_REG(a_set_symmetric_difference, "set_symmetric_difference", SETS, KI),
+        C06_REG(a_set_symmetric_difference, "set_symmetric_difference", SETS, Kpi),
+        C06_REG(a_set_symmetric_difference, "set_symmetric_difference", SETS, Kip),
+        C06_REG(a_set_symmetric_difference, "set_symmetric_difference", SETS, Kfi),
+        C06_REG(a_set_symmetric_difference, "set_symmetric_difference", SETS, Kpf),
+        C06_REG(a_set_symmetric_difference, "set_symmetric_difference", SETS, Kbp),
         C06_REG(a_set_union, "set_union", SETS, KP),
         C06_REG(a_set_union, "set_union", SETS, KI),
+        C06_REG(a_set_union, "set_union", SETS, Kpi),
+        C06_REG(a_set_union, "set_union", SETS, Kip),
+        C06_REG(a_set_union, "set_union", SETS, Kfi),
+        C06_REG(a_set_union, "set_union", SETS, Kpf),
+        C06_REG(a_set_union, "set_union", SETS, Kbp),
     };
     return t;
 }
